@@ -6,13 +6,22 @@ Protocol handler for C12 (GP printing / parsing / compilation).
 nodes, sub      as in C11
 text            a Python `str`, percent-encoded (`%XX` for every byte outside `[A-Za-z0-9_.-]`)
 mapping         `key=node;key=node;…` (`-` = empty) — `pset.mapping` keyed by token text (encoded)
-littypes        `<int>.<bool>.<float>` the type ids `eval` gives to int / bool / float literals
+littypes        `<int>.<bool>.<float>.<str>` the type ids `eval` gives to int / bool / float / str literals
 funs            `name=op,name=op,…` the callables of `pset.context` by builtin op id
 vars            `name=val,…` named terminals of `pset.context`
-val             `i<int>` | `b0` | `b1` | `f<bits>`
+val             `i<int>` | `b0` | `b1` | `f<bits>` | `s<text>` | `n` (None)
+src             a source text (percent-encoded) as DEAP hands it to `eval`
+dump            the canonical AST text of `PyLang.dump` (the harness prints `ast.parse` of CPython the same way)
+
+pyparse src                      → dump of `PyLang.parseExpr src`, or `none`
+pysound src dump|none            → `sound` when the model rejects `src` or returns exactly `dump`, else `unsound:<dump>`
+pyeval funs vars hasargs src tuples   → values of `PyLang.evalSrc` (parse the text, evaluate the AST in the namespace)
+pyadf tuples (name args funs vars src)*   → values of `pyCompileADFSrc` (compileADF through the source texts)
+srcok args nodes                 → `1` iff the hypotheses of `C12.parse_compileSrc` hold (`wf`, `ArgsOK`, `SrcOK`)
 -/
 namespace DriverC12
 open Proto GpTree GpCompile DriverC11
+open PyLang (allDigits digitsVal decToFloat PyEnv PyObj)
 
 /-! ### text transport -/
 
@@ -43,15 +52,12 @@ def encodeText (s : Str) : String :=
 
 /-! ### literals: `eval(token)` for ints, dyadic floats, bools -/
 
-def allDigits (l : List Char) : Bool := !l.isEmpty && l.all Char.isDigit
-
-def digitsVal (l : List Char) : Nat := l.foldl (fun n c => 10 * n + (c.toNat - '0'.toNat)) 0
-
 inductive Lit
   | int (i : Int)
   | bool (b : Bool)
   /-- sign, integer digits, fraction digits, decimal exponent, and the exponent text (empty = none) -/
   | flt (neg : Bool) (ip : List Char) (fp : List Char) (exp : Int) (etext : List Char)
+  | str (s : List Char)
 
 def stripLeading0 (l : List Char) : List Char :=
   match l.dropWhile (· == '0') with
@@ -69,9 +75,20 @@ def parseExp (l : List Char) : Option Int :=
   | '+' :: r => if allDigits r then some (digitsVal r : Int) else none
   | r => if allDigits r then some (digitsVal r : Int) else none
 
+/-- a quoted string without escapes: `'…'` or `"…"` -/
+def parseStrLit (s : Str) : Option Str :=
+  match s with
+  | q :: rest =>
+    if (q == '\'' || q == '"') && rest.getLast? == some q then
+      let body := rest.dropLast
+      if body.all (fun c => c != q && c != '\\' && c != '\n' && c != '\r') then some body else none
+    else none
+  | [] => none
+
 def parseLit (s : Str) : Option Lit :=
   if s = "True".toList then some (.bool true)
   else if s = "False".toList then some (.bool false)
+  else if let some body := parseStrLit s then some (.str body)
   else
     let (neg, body) := match s with | '-' :: r => (true, r) | r => (false, r)
     let (mant, etext) := body.span (fun c => c != 'e' && c != 'E')
@@ -99,34 +116,21 @@ def reprLit : Lit → Str
   | .flt neg ip fp _ etext =>
     if etext.isEmpty then (if neg then ['-'] else []) ++ stripLeading0 ip ++ ['.'] ++ stripTrailing0 fp
     else (if neg then ['-'] else []) ++ ip ++ (if fp.isEmpty then [] else '.' :: fp) ++ etext
-
-/-- the double nearest to `n / d` (round half to even) — what Python's `float("…")` / `eval` of a decimal
-literal returns; by exact integer arithmetic (normal range; outside it, the quotient of the two conversions) -/
-def ratToFloat (n d : Nat) : Float :=
-  if n = 0 ∨ d = 0 then 0.0 else
-  let e0 : Int := (Nat.log2 n : Int) - (Nat.log2 d : Int) - 52
-  let quo (e : Int) : Nat × Nat × Nat :=
-    if e ≥ 0 then (n / (d * 2 ^ e.toNat), n % (d * 2 ^ e.toNat), d * 2 ^ e.toNat)
-    else ((n * 2 ^ (-e).toNat) / d, (n * 2 ^ (-e).toNat) % d, d)
-  let e := if (quo e0).1 ≥ 2 ^ 52 then e0 else e0 - 1
-  let (q, r, den) := quo e
-  let q1 := if 2 * r > den ∨ (2 * r = den ∧ q % 2 = 1) then q + 1 else q
-  let (q2, e2) := if q1 ≥ 2 ^ 53 then (q1 / 2, e + 1) else (q1, e)
-  let E : Int := e2 + 52 + 1023
-  if E ≤ 0 ∨ E ≥ 2047 then Float.ofNat n / Float.ofNat d
-  else Float.ofBits (UInt64.ofNat (E.toNat * 2 ^ 52 + (q2 - 2 ^ 52)))
+  | .str s =>
+    -- `repr` of a str: double quotes only when the text has a single quote and no double quote
+    if s.contains '\'' && !s.contains '"' then ['"'] ++ s ++ ['"'] else ['\''] ++ s ++ ['\'']
 
 def litVal : Lit → Val
   | .int i => .int i
   | .bool b => .bool b
   | .flt neg ip fp ex _ =>
-    let m := digitsVal (ip ++ fp)
-    let sc : Int := ex - fp.length
-    let x := if sc ≥ 0 then ratToFloat (m * 10 ^ sc.toNat) 1 else ratToFloat m (10 ^ (-sc).toNat)
+    let x := decToFloat (digitsVal (ip ++ fp)) (ex - fp.length)
     .flt (if neg then -x else x)
+  | .str s => .str s
 
-def evLit (tInt tBool tFloat : Nat) (s : Str) : Option (Nat × Str) :=
-  (parseLit s).map (fun l => (match l with | .int _ => tInt | .bool _ => tBool | .flt .. => tFloat, reprLit l))
+def evLit (tInt tBool tFloat tStr : Nat) (s : Str) : Option (Nat × Str) :=
+  (parseLit s).map (fun l => (match l with | .int _ => tInt | .bool _ => tBool | .flt .. => tFloat | .str _ => tStr,
+    reprLit l))
 
 /-! ### values and the builtin callables -/
 
@@ -134,13 +138,17 @@ def showVal : Val → String
   | .int i => "i" ++ toString i
   | .bool b => if b then "b1" else "b0"
   | .flt x => "f" ++ toString x.toBits.toNat
+  | .str s => "s" ++ PyLang.encD s
+  | .pynone => "n"
 
 def parseVal (s : String) : Option Val :=
   let body := (s.drop 1).toString
   match (s.take 1).toString with
-  | "i" => body.toInt?.map Val.int
+  | "i" => body.toInt?.map PyLang.Val.int
   | "b" => if body = "1" then some (.bool true) else if body = "0" then some (.bool false) else none
-  | "f" => body.toNat?.map (fun n => Val.flt (Float.ofBits (UInt64.ofNat n)))
+  | "f" => body.toNat?.map (fun n => PyLang.Val.flt (Float.ofBits (UInt64.ofNat n)))
+  | "s" => (decodeGo body.toList).map PyLang.Val.str
+  | "n" => if body = "" then some .pynone else none
   | _ => none
 
 /-! ### parsing of the request pieces -/
@@ -159,9 +167,10 @@ def parseMapping (s : String) : Option (List (Str × Prim)) :=
 
 def lookup {β : Type} (l : List (Str × β)) (k : Str) : Option β := (l.find? (fun e => e.1 == k)).map (·.2)
 
-def parseLitTypes (s : String) : Option (Nat × Nat × Nat) :=
+def parseLitTypes (s : String) : Option (Nat × Nat × Nat × Nat) :=
   match s.splitOn "." with
-  | [a, b, c] => do let a ← parseNat a; let b ← parseNat b; let c ← parseNat c; some (a, b, c)
+  | [a, b, c, d] => do
+    let a ← parseNat a; let b ← parseNat b; let c ← parseNat c; let d ← parseNat d; some (a, b, c, d)
   | _ => none
 
 def parseNames (s : String) : Option (List Str) := parseList decodeText s
@@ -187,10 +196,17 @@ def parseTree (l : List Prim) : Option Tree :=
   | some (t, []) => some t
   | _ => none
 
-def mkEnv (funs : List (Str × String)) (vars : List (Str × Val)) : Env where
-  funs := fun x => (lookup funs x).map applyOp
-  vars := lookup vars
-  lit := fun x => (parseLit x).map litVal
+/-- the Python namespace `pset.context`: callables by op id, named values (a value wins when a key is listed
+twice, as the later `dict` entry does not exist: keys are unique) -/
+def mkPyEnv (funs : List (Str × String)) (vars : List (Str × Val)) : PyEnv where
+  globals := fun x => match lookup vars x with
+    | some v => some (.val v)
+    | none => (lookup funs x).map (fun op => PyObj.fn (applyOp op))
+  locals := []
+
+/-- the `evalTree` environment of that namespace (`envOfPy`: only identifiers are reachable, literals have the
+value `PyLang.litOf` gives them) -/
+def mkEnv (funs : List (Str × String)) (vars : List (Str × Val)) : Env := envOfPy (mkPyEnv funs vars)
 
 def showRes : Option Val → String
   | some v => showVal v
@@ -208,6 +224,19 @@ def parseCPsets : List String → Option (List (CPset × Tree))
     let t ← parseTree l
     let more ← parseCPsets rest
     some ((⟨name, args, mkEnv f v⟩, t) :: more)
+  | _ => none
+
+/-- the psets of a `pyadf` request: groups of five tokens, the last one the source text -/
+def parsePySets : List String → Option (List (PyCPset × Str))
+  | [] => some []
+  | name :: args :: funs :: vars :: src :: rest => do
+    let name ← decodeText name
+    let args ← parseNames args
+    let f ← parseAssoc some funs
+    let v ← parseAssoc parseVal vars
+    let s ← decodeText src
+    let more ← parsePySets rest
+    some ((⟨name, args, mkPyEnv f v⟩, s) :: more)
   | _ => none
 
 def handle : List String → String
@@ -240,8 +269,8 @@ def handle : List String → String
   | ["fs", sub, mapping, lt, text] =>
     match (do let sp ← parseSub sub; let m ← parseMapping mapping; let t ← parseLitTypes lt
               let s ← decodeText text; pure (sp, m, t, s)) with
-    | some (sp, m, (ti, tb, tf), s) =>
-      match fromString ⟨lookup m, mkSub sp, evLit ti tb tf⟩ s with
+    | some (sp, m, (ti, tb, tf, ts), s) =>
+      match fromString ⟨lookup m, mkSub sp, evLit ti tb tf ts⟩ s with
       | some l => showNodes l
       | none => "none"
     | none => "bad-op"
@@ -277,6 +306,38 @@ def handle : List String → String
       | some fa, some fb =>
         ",".intercalate (tu.map (fun vals => showRes (fa vals))) ++ "|" ++ ",".intercalate (tu.map (fun vals => showRes (fb vals)))
       | _, _ => "none"
+    | none => "bad-op"
+  | ["pyparse", src] =>
+    match decodeText src with
+    | some s => match PyLang.parseExpr s with
+      | some e => PyLang.dump e
+      | none => "none"
+    | none => "bad-op"
+  | ["pysound", src, d] =>
+    match decodeText src with
+    | some s => match PyLang.parseExpr s with
+      | some e => if PyLang.dump e = d then "sound" else "unsound:" ++ PyLang.dump e
+      | none => "sound"
+    | none => "bad-op"
+  | ["pyeval", funs, vars, hasargs, src, tuples] =>
+    match (do let f ← parseAssoc some funs; let v ← parseAssoc parseVal vars; let h ← parseBool hasargs
+              let s ← decodeText src; let tu ← parseTuples tuples; pure (f, v, h, s, tu)) with
+    | some (f, v, h, s, tu) =>
+      ",".intercalate (tu.map (fun vals => showRes (PyLang.evalSrc (mkPyEnv f v) h s vals)))
+    | none => "bad-op"
+  | "pyadf" :: tuples :: rest =>
+    match (do let tu ← parseTuples tuples; let pts ← parsePySets rest; pure (tu, pts)) with
+    | some (tu, pts) =>
+      match pyCompileADFSrc pts with
+      | some f => ",".intercalate (tu.map (fun vals => showRes (f vals)))
+      | none => "none"
+    | none => "bad-op"
+  | ["srcok", args, nodes] =>
+    match (do let a ← parseNames args; let l ← parseNodes nodes; pure (a, l)) with
+    | some (a, l) =>
+      match parseTree l with
+      | some t => showBool (wf t && ArgsOK a && l.all SrcOK)
+      | none => "0"
     | none => "bad-op"
   | _ => "bad-op"
 
